@@ -172,6 +172,56 @@ func Print(v reflect.Value) string {
 	return ":?" + t.Kind().String()
 }
 
+// PrintNamed dumps a value like Print, except that the fields of the structs the reflection codec walks (descriptor
+// kind struct) are given BY NAME: `((:@Field|v)|…)`. The spec side (C04) picks struct fields by the schema's field
+// names, so that two same-typed fields exchanged in the Go struct yield a different cell on the spec side.
+func PrintNamed(u *Universe, d *Desc, v reflect.Value) string {
+	v = access(v)
+	switch d.Kind {
+	case KNamed:
+		if body := u.Named[d.Name]; body != nil {
+			return PrintNamed(u, body, v)
+		}
+	case KStruct:
+		parts := make([]string, len(d.Fields))
+		for i, f := range d.Fields {
+			parts[i] = "(:@" + f.Name + "|" + PrintNamed(u, f.T, v.Field(f.Index)) + ")"
+		}
+		return "(" + strings.Join(parts, "|") + ")"
+	case KSum:
+		name := sumName(v)
+		for _, c := range d.Ctors {
+			if c.Name == name {
+				return "(:" + name + "|" + PrintNamed(u, c.T, v.Field(c.Index)) + ")"
+			}
+		}
+	case KPtr:
+		if v.IsNil() {
+			return "~"
+		}
+		return "(" + PrintNamed(u, d.Elem, v.Elem()) + ")"
+	case KMaybe:
+		if !v.FieldByName("Exists").Bool() {
+			return "~"
+		}
+		return "(" + PrintNamed(u, d.Elem, v.FieldByName("Value")) + ")"
+	case KEither:
+		if v.FieldByName("IsRight").Bool() {
+			return "(:R|" + PrintNamed(u, d.Elem2, v.FieldByName("Right")) + ")"
+		}
+		return "(:L|" + PrintNamed(u, d.Elem, v.FieldByName("Left")) + ")"
+	case KEitherRef:
+		side := ":L"
+		if v.FieldByName("IsRight").Bool() {
+			side = ":R"
+		}
+		return "(" + side + "|" + PrintNamed(u, d.Elem, v.FieldByName("Value")) + ")"
+	case KRef:
+		return PrintNamed(u, d.Elem, v.FieldByName("Value"))
+	}
+	return Print(v)
+}
+
 // ------------------------------------------------------------------------------------------------------ reader
 
 type sexp struct {
@@ -448,6 +498,22 @@ func fill(e *sexp, v reflect.Value) error {
 			return fill(e.list[1], f)
 		}
 		open := openTypes[base]
+		if len(e.list) > 0 && e.list[0].isLst && len(e.list[0].list) == 2 && strings.HasPrefix(e.list[0].list[0].atom, ":@") {
+			// fields given by name
+			for _, ent := range e.list {
+				if !ent.isLst || len(ent.list) != 2 || !strings.HasPrefix(ent.list[0].atom, ":@") {
+					return bad()
+				}
+				f := v.FieldByName(ent.list[0].atom[2:])
+				if !f.IsValid() {
+					return bad()
+				}
+				if err := fill(ent.list[1], f); err != nil {
+					return err
+				}
+			}
+			return nil
+		}
 		k := 0
 		for i := 0; i < t.NumField(); i++ {
 			if !t.Field(i).IsExported() && !open {
